@@ -1,9 +1,11 @@
 import Fv.Driver.Proto
 import Fv.Chan.Mpmc2B
+import Fv.Chan.RendezvousB
 /-
 Engine `lockedchan`: tie (i) for the lock-based channel cores.
 
-For every `chanh` case of the flavours `mpmc_b`, `mpmc_b_async` (model `Fv.Chan.Mpmc2B`) the C/R history
+For every `chanh` case of the flavours `mpmc_b`, `mpmc_b_async` (model `Fv.Chan.Mpmc2B`) and `rdv_spsc`, `rdv_mpsc`,
+`rdv_mpmc` and their `_async` variants (model `Fv.Chan.RendezvousB`) the C/R history
 of the real code must be a behaviour of the B-model: we search for a run of the model (a sequence of model
 steps at critical-section granularity) such that
   * every step of an operation lies between its `C` and its `R` event (real-time order),
@@ -155,7 +157,12 @@ def stepEntry {σ} (c : Ctx σ) (s : σ) (e : Entry) : Option (σ × Entry) :=
       match m.status s e.agent with
       | .fin _ => some (s, { e with phase := 2, result := "invalid:done" })
       | .dropped => some (s, { e with phase := 2, result := "invalid:done" })
-      | _ => (m.poll s e.agent).map (fun s' => (s', { e with phase := 1 }))
+      | _ =>
+        (m.poll s e.agent).map (fun s' =>
+          match m.status s' e.agent with
+          | .fin t => (s', { e with phase := 2, result := "ready:" ++ t })
+          | .pending => (s', { e with phase := 2, result := "pending" })
+          | _ => (s', { e with phase := 1 }))
     else
       (m.adv s e.agent).map (fun s' =>
         match m.status s' e.agent with
@@ -182,13 +189,20 @@ def stepEntry {σ} (c : Ctx σ) (s : σ) (e : Entry) : Option (σ × Entry) :=
   | .ablock op =>
     if e.phase = 0 then
       let stale := decide (0 < m.wakes s e.agent)
-      ((m.call s e.agent op).bind (fun s1 => m.poll s1 e.agent)).map (fun s' => (s', { e with phase := 1, woken := stale }))
+      ((m.call s e.agent op).bind (fun s1 => m.poll s1 e.agent)).map (fun s' =>
+        match m.status s' e.agent with
+        | .fin t => (s', { e with phase := 2, result := t })
+        | _ => (s', { e with phase := 1, woken := stale }))
     else
       match m.status s e.agent with
       | .pending =>
         -- the executor thread parks until its waker fired (or a stale park token lets it through once)
-        if 0 < m.wakes s e.agent then (m.poll s e.agent).map (fun s' => (s', e))
-        else if e.woken then (m.poll s e.agent).map (fun s' => (s', { e with woken := false }))
+        let fin (s' : σ) (e' : Entry) : σ × Entry :=
+          match m.status s' e.agent with
+          | .fin t => (s', { e' with phase := 2, result := t })
+          | _ => (s', e')
+        if 0 < m.wakes s e.agent then (m.poll s e.agent).map (fun s' => fin s' e)
+        else if e.woken then (m.poll s e.agent).map (fun s' => fin s' { e with woken := false })
         else none
       | _ =>
         (m.adv s e.agent).map (fun s' =>
@@ -280,7 +294,8 @@ structure St where
 def kv (ws : List String) (key : String) : Option String :=
   (ws.find? (fun w => w.startsWith (key ++ "="))).map (fun w => (w.drop (key.length + 1)).toString)
 
-def supported (f : String) : Bool := f = "mpmc_b" || f = "mpmc_b_async"
+def isRdv (f : String) : Bool := f.startsWith "rdv_"
+def supported (f : String) : Bool := f = "mpmc_b" || f = "mpmc_b_async" || isRdv f
 
 def init (ws : List String) : Except String St :=
   match kv ws "flavour", (kv ws "cap").bind String.toNat? with
@@ -312,6 +327,7 @@ structure Interp where
   items : List (String × Nat × Option Item) := []   -- reversed events: ("C", tid, item) / ("R", tid, none)
   skip : Option String := none
   f3 : Bool := false                 -- a closed handle was converted (F3: the copy is open again, counts underflow)
+  rdv : Bool := false                -- rendezvous flavour: len / is_empty / is_full are constants of the handle layer
 
 def findHandle (hs : List Handle) (n : String) : Option Handle := hs.find? (fun h => h.name = n)
 def setHandle (hs : List Handle) (h : Handle) : List Handle :=
@@ -380,7 +396,7 @@ def interpCall (ip : Interp) (tid : Nat) (op : List String) (res : Option String
         let ip' := { ip with handles := setHandle ip.handles { hd with async := (o = "to_async"), closed := false },
                              f3 := ip.f3 || hd.closed }
         { ip' with items := ("C", tid, some { tid := tid, agent := tid, kind := .direct, expect := res }) :: ip'.items }
-      else if o = "len" || o = "is_empty" || o = "is_full" then mk (.probe o)
+      else if o = "len" || o = "is_empty" || o = "is_full" then (if ip.rdv then direct else mk (.probe o))
       else if o = "capacity" || o = "is_closed" || o = "sender_count" then direct
       else if o = "send" then
         match arg.toNat? with
@@ -507,6 +523,89 @@ def iface : Iface State :=
 
 end Mp
 
+
+/-! ## model interface: rendezvous core -/
+
+namespace Rv
+open Fv.Chan.RendezvousB
+
+def opOf : OpK → Option Op
+  | .send v => some (.send v) | .trySend v => some (.trySend v) | .recv => some .recv | .tryRecv => some .tryRecv
+  | .recvTimeout0 => some .recvTimeout0 | .sendFut v => some (.sendFut v) | .recvFut => some .recvFut
+  | .cloneS => some .cloneS | .cloneR => some .cloneR | .closeS => some .closeS | .closeR => some .closeR | .probe => none
+
+def resTok : Res → String
+  | .sendOk _ => "ok"
+  | .sendFull v => s!"err:full:{v}"
+  | .sendClosed v => s!"err:closed:{v}"
+  | .sendClosedDrop _ => "err:closed"
+  | .recvOk v => s!"ok:{v}"
+  | .recvEmpty => "err:empty"
+  | .recvDisc => "err:disconnected"
+  | .recvTimeout => "err:timeout"
+  | .unit => "ok"
+  | .futDropped => "dropped"
+  | .panicked => "PANIC"
+
+def status (s : State) (a : Nat) : Status :=
+  match s.pc a with
+  | .idle => .rest
+  | .done .futDropped => .dropped
+  | .done .panicked => .panicked
+  | .done r => .fin (resTok r)
+  | .asNew _ _ => .fresh
+  | .arNew _ => .fresh
+  | .asPend _ _ => .pending
+  | .arPend _ => .pending
+  | _ => .running
+
+def rsCode : RS → Nat
+  | .waiting => 0 | .done => 1 | .cancelled => 2 | .disconnected => 3
+
+def resCode : Res → List Nat
+  | .sendOk v => [1, v] | .sendFull v => [2, v] | .sendClosed v => [3, v] | .sendClosedDrop v => [4, v]
+  | .recvOk v => [5, v] | .recvEmpty => [6] | .recvDisc => [7] | .recvTimeout => [8] | .unit => [9]
+  | .futDropped => [11] | .panicked => [12]
+
+def pcCode : PC → List Nat
+  | .idle => [0] | .done r => 1 :: resCode r | .wakeThen a r => 2 :: a :: resCode r
+  | .sLock v r => [3, v, r] | .sWait v r => [4, v, r] | .sPark v r => [5, v, r] | .tsLock v => [6, v]
+  | .rLock r => [7, r] | .rWait r => [8, r] | .rPark r => [9, r] | .trLock => [10]
+  | .toLock r => [11, r] | .toLoad r => [12, r] | .toCas r => [13, r] | .toUnl r => [14, r] | .toFin r => [15, r]
+  | .asNew v r => [16, v, r] | .asLock v r => [17, v, r] | .asPend v r => [18, v, r] | .asRef v r => [19, v, r]
+  | .asFin v r => [20, v, r] | .fdUnlS v r => [21, v, r]
+  | .arNew r => [22, r] | .arLock r => [23, r] | .arPend r => [24, r] | .arRef r => [25, r] | .arFin r => [26, r]
+  | .fdUnlR r => [27, r]
+  | .hCloneS => [28] | .hCloneR => [29] | .hCloseS => [30] | .hCloseR => [31] | .hWake ws => 32 :: ws
+
+def key (s : State) (agents : List Nat) : List Nat :=
+  s.sq ++ [999999, s.senders, s.receivers] ++ s.rq ++ [999998, s.nextRec] ++
+  ((List.range s.nextRec).map (fun r => [rsCode (s.st r), (s.slot r).getD 999990])).flatten ++
+  (agents.map (fun a => pcCode (s.pc a) ++ [999994, s.wakes a])).flatten
+
+def label (s : State) (a : Nat) : String :=
+  match s.pc a with
+  | .wakeThen .. => "wake" | .hWake .. => "wake"
+  | .sLock .. => "send-lock" | .tsLock .. => "send-lock" | .asLock .. => "send-lock"
+  | .rLock .. => "recv-lock" | .trLock => "recv-lock" | .toLock .. => "recv-lock" | .arLock .. => "recv-lock"
+  | .sWait .. => "load-state" | .rWait .. => "load-state" | .toLoad .. => "load-state" | .toFin .. => "load-state"
+  | .asFin .. => "load-state" | .arFin .. => "load-state"
+  | .sPark .. => "park" | .rPark .. => "park"
+  | .toCas .. => "cancel-cas"
+  | .toUnl .. => "unlink" | .fdUnlS .. => "unlink" | .fdUnlR .. => "unlink"
+  | .asRef .. => "refresh-waker" | .arRef .. => "refresh-waker"
+  | .hCloneS => "clone" | .hCloneR => "clone" | .hCloseS => "close" | .hCloseR => "close"
+  | _ => "-"
+
+def iface : Iface State :=
+  { call := fun s a op => (opOf op).bind (fun o => Fv.Chan.RendezvousB.step s a (.call o)),
+    adv := fun s a => Fv.Chan.RendezvousB.step s a .adv,
+    poll := fun s a => Fv.Chan.RendezvousB.step s a .poll,
+    dropFut := fun s a => Fv.Chan.RendezvousB.step s a .dropFut,
+    status := status, wakes := fun s a => s.wakes a, key := key, label := label, stale := fun _ _ => false }
+
+end Rv
+
 /-! ## putting it together -/
 
 def initialHandles (flavour : String) : List Handle :=
@@ -527,7 +626,7 @@ def interpret (flavour : String) (lines : List (String × Nat × List String)) :
       if ip.skip.isSome then ip else
       if k = "C" then go rest (interpCall ip tid toks (resultOf rest tid))
       else go rest { ip with items := ("R", tid, none) :: ip.items }
-  go lines { handles := initialHandles flavour, futs := [] }
+  go lines { handles := initialHandles flavour, futs := [], rdv := isRdv flavour }
 
 def finish (st : St) : Except String (List String) :=
   match st.skip with
@@ -551,9 +650,15 @@ def finish (st : St) : Except String (List String) :=
           | _ => none
         else none
       if st.status.startsWith "panic:" && panicTid.isNone then .ok ["skip-foreign-panic"] else
-      let c : Ctx Fv.Chan.Mpmc2B.State :=
-        { m := Mp.iface, evs := evs, agents := agents, cap := st.cap, panicTid := panicTid }
-      let (out, vis) := dfs c { i := 0, s := Fv.Chan.Mpmc2B.init st.cap, es := [] } 0 Vis.empty
+      let (out, vis) :=
+        if isRdv st.flavour then
+          let c : Ctx Fv.Chan.RendezvousB.State :=
+            { m := Rv.iface, evs := evs, agents := agents, cap := st.cap, panicTid := panicTid }
+          dfs c { i := 0, s := Fv.Chan.RendezvousB.init, es := [] } 0 Vis.empty
+        else
+          let c : Ctx Fv.Chan.Mpmc2B.State :=
+            { m := Mp.iface, evs := evs, agents := agents, cap := st.cap, panicTid := panicTid }
+          dfs c { i := 0, s := Fv.Chan.Mpmc2B.init st.cap, es := [] } 0 Vis.empty
       match out with
       | .found _ =>
         .ok (["history-explained", "flavour-" ++ st.flavour] ++ (if panicTid.isSome then ["panic-F5-explained"] else []) ++
